@@ -288,7 +288,7 @@ CHECK = Check(
     rule=(
         "Generated configurations: 1-3 routers with 1-4 registrations each over names {a, ab, a-b, b} (prefix-related on purpose) and "
         "queues {q0,q1,q2}, overrides inside and across routers, 1-2 workers built from generated router subsets in generated inclusion "
-        "order, tasks_limit in {1,2,1000}; 1-8 jobs over (name in pool + unknown, queue in pool + unserved), enqueued before and while "
+        "order (handed to the constructor, included afterwards, or through an intermediate router), registrations with or without an explicit queue / name (router default queue, function name), tasks_limit in {1,2,1000}; 1-8 jobs over (name in pool + unknown, queue in pool + unserved), enqueued before and while "
         "the workers run; three brokers. Oracle: last-registration-wins model: a job is executed iff some worker's final actor of that "
         "name is registered on the job's queue, then exactly once by exactly that registration; every other message stays waiting in its "
         "own queue with unchanged parameters and is consumable by a later consumer for its topic; own jobs finish within a bound; "
